@@ -4,6 +4,9 @@ Observation (real process boundary): the executed `dumpenv` prints the environme
 it received; a fake `$MODULESHOME/libexec/lmod` plays `lmod python load ...` from a scenario and
 records the assignments it printed.  Reference argv = the same task run under the native
 environment.  Oracle: vp.ref_env.overlay(caller environment at submission, assignments printed).
+Half of the cases submit a second task with the same modules from the same process after some caller
+variables (PATH-like ones included) were changed; its environment must be the overlay of the *current* caller
+environment (expected module output = vp/fakes/lmod's rules replayed by `simulate`).
 Not generated (statement silent): variable removals (`del os.environ[..]`), values containing both
 quote characters / backslash escapes.
 Mechanisms: `env-not-inherited` (only caller variables the modules do not touch are missing, all
@@ -57,10 +60,28 @@ def gen_case(rng, i, rich):
                     v = rng.choice(["it's", 'say "hi"', "a'b=c", 'p:"q"'])
                 ops.append(["set", rng.choice(NAMES), v])
         mods[f"mod{m}/{rng.randint(1, 9)}.0"] = ops
-    return {"i": i, "caller": caller, "modules": mods, "quote": rng.choice(["'", '"']),
+    second = None
+    if rng.random() < 0.5:
+        second = {k: rng.choice(["/changed/bin", "/c 2/lib:/z", "later"]) for k in rng.sample(PATHV + ["VPC_A", "VPC_X1", "LICENSE"], 3)}
+    return {"i": i, "caller": caller, "modules": mods, "second": second, "quote": rng.choice(["'", '"']),
             "eq": rng.choice([" = ", "=", "  =  "]),
             "inputs": {"txt": rng.choice(["hello", "a b", "x=y"]), "n": rng.choice([None, 3]),
                        "words": rng.choice([None, ["u", "v w"]]), "flag": rng.random() < 0.5}}
+
+
+def simulate(mods, environ):
+    """what the fake lmod prints for these modules when started in `environ` (same rules as vp/fakes/lmod)"""
+    cur, out = dict(environ), {}
+    for m, ops in mods.items():
+        for op in ops:
+            if op[0] == "set":
+                cur[op[1]] = out[op[1]] = op[2]
+            else:
+                old = cur.get(op[1])
+                cur[op[1]] = out[op[1]] = op[2] + (op[3] + old if old else "")
+    loaded = ":".join(mods)
+    out["LOADEDMODULES"] = loaded + (":" + environ["LOADEDMODULES"] if environ.get("LOADEDMODULES") else "")
+    return list(out.items())
 
 
 def run_case(case, wctx):
@@ -98,6 +119,28 @@ def run_case(case, wctx):
         os.environ.update(saved)
     calls = read_log(d / "argv.log")
     res["counters"]["lmod_invocations"] = len(calls)
+    second = None
+    if got is not None and case.get("second"):
+        # the same modules again in the same process after the caller's environment changed: the overlay must be
+        # computed from the environment in force at *that* submission
+        os.environ.update(case["caller"])
+        os.environ.update(case["second"])
+        os.environ.update({"MODULESHOME": str(home), "VP_LMOD_SCENARIO": str(d / "scenario.json"),
+                           "VP_LMOD_OUT": str(d / "lmod2.out.json"), "VP_ARGV_LOG": str(d / "argv2.log")})
+        caller2 = dict(os.environ)
+        try:
+            with Submitter(worker="debug", environment=lmod.Environment(modules=list(case["modules"])),
+                           cache_root=d / "crl2") as s:
+                got2 = json.loads(s(T(**{**kw, "txt": kw["txt"] + "-again"})).outputs.stdout)
+            want2 = ref_env.overlay(caller2, simulate(case["modules"], caller2))
+            mk2 = {k for k, _ in simulate(case["modules"], caller2)}
+            second = ref_env.diff(want2, got2["env"], mk2)
+            res["counters"]["second_runs_compared"] = 1
+        except Exception as e:
+            second = [{"kind": "second-run-failed", "exception": env.short_tb(e)}]
+        finally:
+            os.environ.clear()
+            os.environ.update(saved)
     if got is None:
         if not calls:
             return {**res, "verdict": "inconclusive", "why": "lmod never invoked: " + env.short_tb(exc)}
@@ -117,6 +160,11 @@ def run_case(case, wctx):
         bad.append({"kind": "lmod-call", "got": calls})
     if got["argv"] != nat["argv"]:
         bad.append({"kind": "argv", "got": got["argv"], "want": nat["argv"]})
+    if second and not bad:
+        return {**res, "verdict": "violated", "mech": None,
+                "witness": {"why": "second run in the same process (caller environment changed in between) did not get "
+                                   "the caller's current environment overlaid with the module settings",
+                            "changed": case["second"], "bad": second[:6], "n_bad": len(second)}}
     if not bad:
         return {**res, "verdict": "held"}
     # one verdict per mechanism family, so that one known mechanism never hides another
